@@ -1010,3 +1010,218 @@ def falsify_c08_case(case: dict, tol=1e-7) -> list[Failure]:
     except Exception as e:  # noqa
         fails.append(Failure("deviation:raises", f"the other mode raises {type(e).__name__}: {e}", key_in, repr(e)[:300]))
     return fails
+
+
+# ------------------------------------------------------------------------------------------------
+# C03 falsifier: brute-force conditioning of the stacked Gaussian
+# ------------------------------------------------------------------------------------------------
+
+def batch_reference(case: dict, sol: dict, pin: list[dict]) -> dict:
+    """Everything the filter should return, recomputed by conditioning the joint Gaussian of
+    z = (alpha_{-1}, u_0..u_{T-1}, w_0..w_{T-1}) on the observed data with dense linear algebra."""
+    import scipy.linalg as sla
+    Ta, Pa, Ka, Za, H, D, Ua = (sol[k] for k in ("Ta", "Pa", "Ka", "Za", "H", "D", "Ua"))
+    if case["deviation"]:
+        Ka = np.zeros_like(Ka); D = np.zeros_like(D)
+    n, nu = Pa.shape
+    ny, nw = H.shape
+    T = case["nper"]
+    model = case["model"]
+    su0 = np.array([model["stds"][f"std_{s}"] for s in sol["u_names"]], dtype=float)
+    Sig0 = Pa @ np.diag(su0 ** 2) @ Pa.T
+    C0 = sla.solve_discrete_lyapunov(Ta, Sig0) if n else np.zeros((0, 0))
+    m0 = np.linalg.solve(np.eye(n) - Ta, Ka)
+    dz = n + T * nu + T * nw
+    mz = np.zeros(dz); Sz = np.zeros((dz, dz))
+    mz[:n] = m0; Sz[:n, :n] = C0
+    for t in range(T):
+        a = n + t * nu
+        mz[a:a + nu] = pin[t]["u0"]; Sz[a:a + nu, a:a + nu] = np.diag(np.array(pin[t]["std_u"], dtype=float) ** 2)
+        b = n + T * nu + t * nw
+        mz[b:b + nw] = pin[t]["w0"]; Sz[b:b + nw, b:b + nw] = np.diag(np.array(pin[t]["std_w"], dtype=float) ** 2)
+    # alpha_t = A[t] z + c[t]
+    A = []; c = []
+    Ap = np.zeros((n, dz)); Ap[:, :n] = np.eye(n); cp = np.zeros(n)
+    for t in range(T):
+        At = Ta @ Ap
+        At[:, n + t * nu:n + (t + 1) * nu] += Pa
+        ct = Ta @ cp + Ka
+        A.append(At); c.append(ct); Ap, cp = At, ct
+    Ly = []; cy = []
+    for t in range(T):
+        L = Za @ A[t]
+        L[:, n + T * nu + t * nw:n + T * nu + (t + 1) * nw] += H
+        Ly.append(L); cy.append(Za @ c[t] + D)
+    U = Ua[sol["curr_idx"], :]
+
+    def sel_u(t):
+        E = np.zeros((nu, dz)); E[:, n + t * nu:n + (t + 1) * nu] = np.eye(nu); return E
+
+    def sel_w(t):
+        E = np.zeros((nw, dz)); E[:, n + T * nu + t * nw:n + T * nu + (t + 1) * nw] = np.eye(nw); return E
+
+    def obs_upto(tmax):
+        rows = []; cons = []; ys = []
+        for t in range(tmax + 1):
+            for j in range(ny):
+                if pin[t]["mask"][j]:
+                    rows.append(Ly[t][j]); cons.append(cy[t][j]); ys.append(pin[t]["y"][j])
+        if not rows:
+            return np.zeros((0, dz)), np.zeros(0), np.zeros(0)
+        return np.array(rows), np.array(cons), np.array(ys)
+
+    def condition(tmax):
+        Lo, co, yo = obs_upto(tmax)
+        N = len(yo)
+        if N == 0:
+            return {"N": 0, "logdet": 0.0, "q": 0.0, "gain": np.zeros((dz, 0)), "e": np.zeros(0), "Lo": Lo}
+        S = Lo @ Sz @ Lo.T
+        e = yo - (Lo @ mz + co)
+        Si_e = np.linalg.solve(S, e)
+        sign, logdet = np.linalg.slogdet(S)
+        return {"N": N, "logdet": float(logdet), "q": float(e @ Si_e), "S": S, "e": e, "Lo": Lo, "Si_e": Si_e,
+                "cond": float(np.linalg.cond(S))}
+
+    def moments(cnd, Lq, cq):
+        mu = Lq @ mz + cq
+        V = Lq @ Sz @ Lq.T
+        if cnd["N"]:
+            Cqy = Lq @ Sz @ cnd["Lo"].T
+            mu = mu + Cqy @ cnd["Si_e"]
+            V = V - Cqy @ np.linalg.solve(cnd["S"], Cqy.T)
+        return mu, np.sqrt(np.maximum(np.diag(V), 0.0))
+
+    full = condition(T - 1)
+    ref = {"N": full["N"], "cond": full.get("cond", 1.0)}
+    log2pi = math.log(2 * math.pi)
+
+    def nll_of(cnd):
+        return 0.5 * (cnd["N"] * log2pi + cnd["logdet"] + cnd["q"])
+    vs = 1.0
+    if case["rescale_variance"] and full["N"]:
+        vs = full["q"] / full["N"]
+        ref["nll"] = 0.5 * (full["N"] * log2pi + full["logdet"] + full["N"] * math.log(vs) + full["N"])
+    else:
+        ref["nll"] = nll_of(full)
+    ref["var_scale"] = vs
+    ref["nll_unscaled"] = nll_of(full)
+    prev = {"N": 0, "logdet": 0.0, "q": 0.0}
+    ref["contributions"] = []
+    ref["conds"] = []
+    for t in range(T):
+        cnd = condition(t)
+        ref["conds"].append(cnd.get("cond", 1.0))
+        dN = cnd["N"] - prev["N"]
+        # -log p(y_t | y_1..t-1) under the model whose covariances are all multiplied by var_scale
+        ref["contributions"].append(0.5 * (dN * log2pi + (cnd["logdet"] - prev["logdet"]) + dN * math.log(vs)
+                                           + (cnd["q"] - prev["q"]) / vs) if dN else 0.0)
+        prev = cnd
+    sq = math.sqrt(vs)
+    for kind in ("predict", "update", "smooth"):
+        med = {}; std = {}
+        for t in range(T):
+            cnd = full if kind == "smooth" else condition(t if kind == "update" else t - 1)
+            mu, sd = moments(cnd, U @ A[t], U @ c[t])
+            for i, nm in enumerate(sol["curr_names"]):
+                med[(nm, t)] = float(mu[i]); std[(nm, t)] = float(sd[i]) * sq
+            mu, sd = moments(cnd, sel_u(t), np.zeros(nu))
+            for i, nm in enumerate(sol["u_names"]):
+                med[(nm, t)] = float(mu[i])
+            mu, sd = moments(cnd, sel_w(t), np.zeros(nw))
+            for i, nm in enumerate(sol["w_names"]):
+                med[(nm, t)] = float(mu[i])
+            if kind == "predict":
+                mu, sd = moments(cnd, Ly[t], cy[t])
+                for j, nm in enumerate(sol["y_names"]):
+                    med[(nm, t)] = float(mu[j])
+        ref[kind + "_med"] = med; ref[kind + "_std"] = std
+    return ref
+
+
+def public_solution(m) -> dict:
+    sol = m.get_solution()
+    vec = m._get_dynamic_solution_vectors()
+    curr_qids, curr_idx = vec.get_curr_transition_indexes()
+    q2n = m.create_qid_to_name()
+    return {
+        "Ta": np.array(sol.Ta), "Pa": np.array(sol.Pa), "Ka": np.array(sol.Ka).reshape(-1), "Za": np.array(sol.Za),
+        "H": np.array(sol.H), "D": np.array(sol.D).reshape(-1), "Ua": np.array(sol.Ua),
+        "curr_idx": list(curr_idx), "curr_names": [q2n[q] for q in curr_qids],
+        "y_names": [q2n[t.qid] for t in vec.measurement_variables],
+        "u_names": [q2n[t.qid] for t in vec.transition_shocks],
+        "w_names": [q2n[t.qid] for t in vec.measurement_shocks],
+        "num_unit_roots": int(sol.num_unit_roots),
+    }
+
+
+def falsify_c03_case(case: dict, tol=1e-7) -> list[Failure]:
+    """C03 on one case: the filter's output against dense Gaussian conditioning."""
+    fails: list[Failure] = []
+    model = case["model"]
+    m = build_model(model)
+    db, span = input_databox(m, case)
+    opts = kf_options(case)
+    repro = "harness.kalman_common.falsify_c03_case(case)  # case = the 'input' of this record"
+    try:
+        out, info = m.kalman_filter(db, span, return_info=True, **opts)
+    except Exception as e:  # noqa
+        return [Failure("kalman_filter:raises", f"kalman_filter raises {type(e).__name__}: {e}", case, repr(e)[:300],
+                        "filter output", repro)]
+    sol = public_solution(m)
+    if sol["num_unit_roots"]:
+        return []
+    pin = period_inputs(case, sol)
+    try:
+        ref = batch_reference(case, sol, pin)
+    except np.linalg.LinAlgError:
+        return []                      # singular stacked covariance: outside the tolerance regime
+    if max([ref["cond"]] + ref["conds"]) > COND_MAX or not np.isfinite(ref["nll"]):
+        return []
+    T = case["nper"]
+    tag = ":rescale_variance" if case["rescale_variance"] else ""
+    nll = float(info["neg_log_likelihood"])
+    if not close(nll, ref["nll"], tol):
+        fails.append(Failure("likelihood:total" + tag,
+                             "neg_log_likelihood is not the negative log density of the observed data under the joint "
+                             "Gaussian", case, nll, ref["nll"], repro))
+    if not close(float(info["var_scale"]), ref["var_scale"], tol):
+        fails.append(Failure("likelihood:var_scale", "var_scale is not sum pe'F^-1 pe / number of observations", case,
+                             float(info["var_scale"]), ref["var_scale"], repro))
+    contrib = _arr(info["neg_log_likelihood_contributions"], span)
+    if not close(float(np.sum(contrib)), nll, tol):
+        fails.append(Failure("contributions:sum" + tag, "per-period likelihood contributions do not sum to the total",
+                             case, {"sum": float(np.sum(contrib)), "contributions": contrib.tolist()}, nll, repro))
+    for t in range(T):
+        if not any(pin[t]["mask"]) and contrib[t] != 0:
+            fails.append(Failure("contributions:empty-period", "a period without observations contributes to the likelihood",
+                                 case, {"t": t, "contribution": float(contrib[t])}, 0.0, repro))
+            break
+    bad = [t for t in range(T) if not close(float(contrib[t]), ref["contributions"][t], 10 * tol)]
+    if bad:
+        fails.append(Failure("contributions:value" + tag,
+                             "a likelihood contribution is not -log p(y_t | y_1..t-1)"
+                             + (" under the variance-rescaled model" if tag else ""), case,
+                             {"t": bad[0], "contribution": float(contrib[bad[0]])}, ref["contributions"][bad[0]], repro))
+    for kind in ("predict", "update", "smooth"):
+        for what in ("med", "std"):
+            box = out[f"{kind}_{what}"]
+            want = ref[f"{kind}_{what}"]
+            for (nm, t), w in want.items():
+                ln = log_name(case, nm)
+                if nm in sol["y_names"] and not pin[t]["mask"][sol["y_names"].index(nm)]:
+                    continue            # predicted observables are reported on observed rows only
+                if ln not in box.keys():
+                    continue
+                g = float(_arr(box[ln], span)[t])
+                if not close(g, w, 10 * tol):
+                    fails.append(Failure(f"{kind}_{what}" + (":shock" if nm in sol["u_names"] + sol["w_names"] else ""),
+                                         f"{kind}_{what}[{ln}] is not the conditional "
+                                         f"{'mean' if what == 'med' else 'standard deviation'} given the data "
+                                         f"{'up to t-1' if kind == 'predict' else 'up to t' if kind == 'update' else 'of all periods'}",
+                                         case, {"name": ln, "t": t, "got": g}, w, repro))
+                    break
+    seen = set(); uniq = []
+    for f in fails:
+        if f.key not in seen:
+            seen.add(f.key); uniq.append(f)
+    return uniq
